@@ -37,18 +37,21 @@ def eval_function(world, modname, path, bind=None):
         a = cur.args
         fsc = Scope(sc)
         syms = {}
-        for p in a.posonlyargs + a.args + a.kwonlyargs:
+        for i_, p in enumerate(a.posonlyargs + a.args + a.kwonlyargs):
             s = (bind or {}).get(p.arg) or P(p.arg)
             fsc.vars[p.arg] = s
             syms[p.arg] = s
+            syms[f"#{i_}"] = s  # positional access: rules must not depend on parameter names
         if a.vararg:
             s = (bind or {}).get(a.vararg.arg) or T("sym", name=a.vararg.arg, role="param", star=True)
             fsc.vars[a.vararg.arg] = s
             syms[a.vararg.arg] = s
+            syms["*"] = s
         if a.kwarg:
             s = (bind or {}).get(a.kwarg.arg) or T("sym", name=a.kwarg.arg, role="param", dstar=True)
             fsc.vars[a.kwarg.arg] = s
             syms[a.kwarg.arg] = s
+            syms["**"] = s
         fn = cur
         if i < len(parts):
             # run the outer body so that inner defs become closures whose free variables resolve
